@@ -22,6 +22,12 @@ func ProfileFor(prop string) Profile {
 	case "cutoffs":
 		p.Cutoffs = 35
 		p.WBind = 10
+	case "memo":
+		p.WBind = 35
+		p.Memo = 70
+		p.WSet = 34
+		p.WPurge = 4
+		p.Depth = 2
 	case "limit":
 		p.MaxHeight = 6
 		p.WBind = 25
